@@ -29,8 +29,9 @@ func init() {
 
 func runC10(c *Ctx) {
 	p := c.Progs["mod"]
-	c.Rule("C10.L", "lockset on sessions.Cache.cache", 1)
+	c.Rule("C10.L", "lockset on sessions.Cache.cache; miss and insertion under one hold", 2)
 	checkGuards(c, p, "C10.L", agentGuards[:1])
+	ruleCheckThenActOneHold(c, p, "C10.L", "agent/sessions.(*Cache).cachedCookieJar")
 
 	const T = "agent/sessions.sessionResponseWriter"
 	mT := "(*" + ModPath + "/agent/sessions.sessionResponseWriter)"
@@ -39,7 +40,7 @@ func runC10(c *Ctx) {
 
 	// ---- C10.S
 	c.Rule("C10.S", "backend Set-Cookie never passes the session writer", 5)
-	c.Rule("C10.B", "no route around the session handler", 1)
+	c.Rule("C10.B", "no route around the session handler", 2)
 	ruleOnlyWrappedBy(c, p, "C10.B")
 	if wh != nil {
 		isDel := func(i ssa.Instruction) bool {
